@@ -15,7 +15,7 @@ def rendering(fd, v):
 class CHECK(Check):
     pid = "C11"
     entry = "LINE"
-    theorems = ["C11_write_shape", "C11_read_tokens", "C11_no_carry_over", "C11_split_join"]
+    theorems = ["C11_write_shape", "C11_read_tokens", "C11_no_carry_over", "C11_split_join", "C11_roundtrip", "C11_token_values", "C11_short_line"]
     rule = ("delimited layouts of 1-6 fields of mixed kinds x delimiters {; , | :: TAB ' ; ' ab} x fitting value lists whose "
             "renderings contain neither the delimiter nor surrounding blanks (checked per case, others are counted and "
             "skipped) x sequences of 1-6 successive reads through the same Line object: the written line as is, with "
